@@ -89,7 +89,7 @@ func DecodeAddress(addr string, defaultNet *chaincfg.Params) (Address, error) {
 	// Add prefix if it does not exist, and try bch prefix first
 	addrWithPrefix := addr
 	if !strings.EqualFold(addr[:len(bchPrefix)+1], bchPrefix+":") && !strings.EqualFold(addr[:len(slpPrefix)+1], slpPrefix+":") {
-		addrWithPrefix = bchPrefix + ":" + strings.ToLower(addr) // so we don't mix cases
+		addrWithPrefix = bchPrefix + ":" + toLowerASCII(addr) // so we don't mix cases
 	}
 
 	var cashaddrErr error
@@ -121,7 +121,7 @@ func DecodeAddress(addr string, defaultNet *chaincfg.Params) (Address, error) {
 		// try to decode with slp prefix instead
 		addrWithPrefix := addr
 		if !strings.EqualFold(addr[:len(bchPrefix)+1], bchPrefix+":") && !strings.EqualFold(addr[:len(slpPrefix)+1], slpPrefix+":") {
-			addrWithPrefix = slpPrefix + ":" + strings.ToLower(addr) // so we don't mix cases
+			addrWithPrefix = slpPrefix + ":" + toLowerASCII(addr) // so we don't mix cases
 		}
 
 		// Switch on decoded length to determine the type.
@@ -924,6 +924,19 @@ func polyMod(v []byte) uint64 {
 
 func cat(x, y []byte) []byte {
 	return append(x, y...)
+}
+
+// toLowerASCII lower-cases the ASCII letters of s and leaves every other byte
+// untouched.  Unlike strings.ToLower it never maps a non-ASCII rune (such as
+// U+212A KELVIN SIGN) onto an ASCII letter.
+func toLowerASCII(s string) string {
+	b := []byte(s)
+	for i, c := range b {
+		if c >= 'A' && c <= 'Z' {
+			b[i] = c + ('a' - 'A')
+		}
+	}
+	return string(b)
 }
 
 func lowerCase(c byte) byte {
